@@ -16,22 +16,19 @@ class Boom(Exception):
     pass
 
 
+SUBPATHS = ['a.x', 'a.y', 'a.b.x', 'a.b.y', 'c.y', 'a.param']
+
+
 def dep_sets(tier):
-    """dependency sets explored by BFS: every single path, and every path combined with the parent's own parameter.
-    Sets with two paths through sub-objects are covered by the pinned scenarios below (the current tree fails them:
-    known findings C07-*), not by the search."""
+    """dependency sets explored by BFS: every single path, every path combined with the parent's own parameter, every pair of
+    paths through sub-objects (same sub-object, different roots, a leaf beside a deeper path) and one triple."""
     singles = [(p,) for p in PATHS]
     pairs = [(p, 'x') for p in PATHS if p != 'x']
-    return singles + pairs
+    multi = [tuple(c) for c in itertools.combinations(SUBPATHS, 2)] + [('a.b.x', 'a.x'), ('a.x', 'a.b.x', 'c.y')]
+    return singles + pairs, multi
 
 
-# (finding id, deps, initial a, history)
-PINNED = [
-    ('C07-first-subpath-only', ['a.x', 'a.y'], 'M0', [['attach', 'T', 'a', 'M1']]),
-    ('C07-first-subpath-only', ['a.b.x', 'a.b.y'], 'M0', [['attach', 'M0', 'b', 'L2']]),
-    ('C07-other-root-dropped', ['a.x', 'c.y'], 'M0', [['attach', 'T', 'a', 'M0'], ['set', 'L2', 'y', 0]]),
-    ('C07-leaf-beside-deeper-path', ['a.b.x', 'a.x'], 'M0', [['set', 'M0', 'x', 1]]),
-]
+PINNED = []          # (finding id, deps, initial a, history) - scenarios executed but not searched (none at present)
 
 
 class C07(Harness):
@@ -42,15 +39,20 @@ class C07(Harness):
                  'leftover watchers compared with an object-graph reference model')
     rule = ('state = (dependency set, initial attachment, model graph, heap fingerprint of all pool objects); transition = one attach/detach/'
             'assignment; expectation uses only the value reached through each declared path before and after the step')
-    assumptions = ('paths of depth <= 2 plus a.param; pools of 2 mid objects and 3 leaves; a path going unresolved<->resolved may or may not fire (EITHER)',)
+    assumptions = ('paths of depth <= 2 (one of depth 3) plus a.param, alone, with an own parameter, in pairs and one triple; pools of 2 mid objects and 3 leaves; '
+                   'a path going unresolved<->resolved may or may not fire (EITHER)',)
 
     def bounds(self, tier):
         return {'depth': '2 (3 for a.b.x and a.param)' if tier == 'quick' else '3 (4 for a.b.x and a.param)', 'configs': len(self.configs(tier))}
 
     def configs(self, tier):
         out = []
-        for ds in dep_sets(tier):
+        basic, multi = dep_sets(tier)
+        for ds in basic:
             for init in (None, 'M0'):
+                out.append({'deps': list(ds), 'a0': init})
+        for ds in multi:
+            for init in ((None, 'M0') if tier == 'thorough' or ds in (('a.x', 'a.y'), ('a.x', 'c.y'), ('a.b.x', 'a.x')) else ('M0',)):
                 out.append({'deps': list(ds), 'a0': init})
         # the three-object path with objects missing at construction and attached later
         out.append({'deps': ['a.b.c.x'], 'a0': 'M0', 'pre': [['M0', 'b', None], ['L0', 'c', 'L1']]})
